@@ -55,6 +55,9 @@ def cases(tier, rng):
     for op, per in units.items():
         for z in around([0, MAXS // per, MINS // per, -(MAXS // per), I64_MAX // per, I64_MIN // per, I64_MAX, I64_MIN, 1, -1], (-2, -1, 0, 1, 2), lo=I64_MIN, hi=I64_MAX):
             yield case_line(op, z)
+            yield case_line(op.replace('td.', 'td.p'), z)     # the panicking constructor
+    for z in around([0, MAXS * 1000, MINS * 1000, I64_MAX, I64_MIN, 999, -999], lo=I64_MIN, hi=I64_MAX):
+        yield case_line('td.pmillis', z)
     for op in ('td.millis', 'td.micros', 'td.nanos'):
         for z in around([0, 1, -1, 999, 1000, -999, -1000, 10**6, -10**6, G, -G, I64_MAX, I64_MIN, -I64_MAX, 10**15 + 7, -10**15 - 7], lo=I64_MIN, hi=I64_MAX):
             yield case_line(op, z)
@@ -115,6 +118,7 @@ def cases(tier, rng):
         elif r < 0.9:
             yield case_line('td.new', rand_i64(rng), rng.choice([0, 1, G - 1, G, rng.randint(0, U32_MAX), rng.randint(0, G)]))
         elif r < 0.97:
-            yield case_line(rng.choice(list(units) + ['td.millis', 'td.micros', 'td.nanos']), rand_i64(rng))
+            yield case_line(rng.choice(list(units) + ['td.millis', 'td.micros', 'td.nanos', 'td.pweeks', 'td.pdays',
+                                       'td.phours', 'td.pminutes', 'td.pseconds', 'td.pmillis']), rand_i64(rng))
         else:
             yield case_line('td.sum', [rand_td(rng) for _ in range(rng.randint(0, 5))])
